@@ -70,7 +70,12 @@ impl Check for DefCheck {
 				}
 			}
 			_ => {
-				let base = 50 + rc.usize_below(if tier == Tier::Quick { 700 } else if k % 5 == 0 { 9950 } else { 2950 });
+				// quick: one run in eight goes beyond 2^10 steps (anything that happens "every 1024 values")
+				let base = if tier == Tier::Quick && k % 8 == 5 {
+					1100 + rc.usize_below(1500)
+				} else {
+					50 + rc.usize_below(if tier == Tier::Quick { 700 } else if k % 5 == 0 { 9950 } else { 2950 })
+				};
 				base.max(2 * n + 10).min(10_000)
 			}
 		};
